@@ -73,6 +73,7 @@ let run_da cap ops =
        | "add", [v] | "addc", [v] -> a := da_append !a v
        | "emplv", [i] | "empc", [i] -> let (a', k) = da_emplace !a (da_get 0 !a (nat_of_int i)) in a := a'; pr " ->%d" (int_of_nat k)
        | "addlv", [i] -> a := da_append !a (da_get 0 !a (nat_of_int i))
+       | "selfassign", _ | "copyback", _ | "copyctor", _ -> ()       (* copies of the array are the array: the model's value does not change *)
        | "addall2", vs -> let o = List.fold_left (fun o v -> fst (da_emplace o v)) (da_init 0 (nat_of_int 7)) vs in a := da_append_all 0 !a o
        | "get", [i] -> pr " ->%d" (da_get 0 !a (nat_of_int i))
        | "clear", _ -> a := da_clear !a
